@@ -43,6 +43,12 @@ CHECKS = {
         note="Trusted: z3, CPython, rsx.mfs, the pickle stub (its exception set is validated against real truncation of real data files at every byte offset on each run, recorded in the evidence). Process death only (no reordering of completed writes). The autoimport data files are outside the claim. One genuine defect found here was fixed in /repo.",
         design="§5 C18",
     ),
+    "C11": dict(
+        level="other",
+        text="Solver-decided, path-exhaustive within stated bounds: the real History (do, undo, redo, undo(change), redo(change), drop, max_history_items, _FindChangeDependencies), ChangeSet and Change classes run on a model file system with a symbolic pre-state. (inverse) for every composite of up to m solver-chosen sub-changes that rope can perform, z3 decides that undo restores exactly the pre-state and redo exactly the post-state. (algebra) for every sequence of up to D solver-chosen history operations and limit in 1..3, after every step z3 decides that the tree equals a reference replay, from the initial state with primitive operations, of exactly the changes in force; the set rope (un)does for a selected change must equal the reference dependency closure; limit, redo-clearing and refusal-without-effect are checked.",
+        note="Trusted: z3, CPython, rsx, the model file system, the 40-line reference replay. RemoveResource.undo is unimplemented in rope (known finding). Counterexamples are replayed on the real file system.",
+        design="§5 C11",
+    ),
 }
 
 NOT_YET = "check not built yet (see DESIGN.md §5 for the planned decision procedure)"
